@@ -137,6 +137,7 @@ func DefaultFunding(r *rand.Rand, double bool) (map[string]*big.Int, *big.Int) {
 		}
 		f[Acct(i)] = v
 	}
+	f[LongAcct()] = big.NewInt(77_000_000)
 	allow := new(big.Int).Add(Two255, Two128)
 	if double {
 		allow = new(big.Int).Lsh(Max256, 8)
